@@ -95,8 +95,11 @@ def gen_numbers(rng, tier):
     def hits_known(op):
         t = op.split(); st = unhx(t[1]); sc = unhx(t[3])
         return re.fullmatch(r"-?[0-9]+%s\+?[0-9]+" % re.escape(sc), st) is not None
-    single = [o for o in ops if hits_known(o)]
-    ops = [o for o in ops if not hits_known(o)]
+    def hits_known2(op):
+        t = op.split()
+        return unhx(t[2]) != "." or unhx(t[3]) not in ("e", "E")
+    single = [o for o in ops if hits_known(o) or hits_known2(o)]
+    ops = [o for o in ops if not (hits_known(o) or hits_known2(o))]
     cases = chunk("num", ops) + [["case numexp%d" % i, o] for i, o in enumerate(single)]
     # ints: boundaries + random
     iops = []
